@@ -32,3 +32,8 @@ for w in range(4):
                  "props": ["C20"], "unwind": 3, "cost": 5, "mem_gb": 4, "mem_share": 0.25,
                  "allow_no_body": ["tinyjambu_", "memcpy", "memset", "getrandom"],
                  "unbounded": "all prior contents of the state object (= all histories)"})
+
+JOBS.append({"name": "clean.grid", "files": ["harness/h_clean_grid.c", CLEAN_SRC], "functions": [FN],
+             "grid": [{"label": "sz%d" % n, "defs": ["TJV_SZ=%d" % n]} for n in (0, 1, 2, 3, 4, 7, 8, 9, 13, 32, 56)],
+             "props": ["C20", "C06"], "unwind": 70, "cost": 5, "mem_gb": 4, "mem_share": 0.2, "timeout": 120,
+             "bounded": "sizes {0,1,2,3,4,7,8,9,13,32,56} at every offset 0..15 inside a larger object (volatile-loop configuration), loops unwound"})
